@@ -10,6 +10,10 @@
 // race detector (sampling; decides only the "no data race" clause).
 // Family E walks one entry (prefix /e) through its life cycle from every starting shape; the final
 // state asks the face and dispatch tables under every id and repeats the threads' own lookups.
+// Round 10: what the readvertisers are told is part of the final state (last command per prefix,
+// commands per prefix in the order sent, the readvertiser's count, the RIB's notifications per
+// prefix in the order delivered), with programs that register / unregister / tear down the same
+// readvertised route from two threads in families A, D and E.
 // Family D of the scenarios makes face teardown a first-class operation: registered faces that own
 // routes, the real face.Table.Remove / faces/destroy (also two teardowns of one face) against the
 // real face-guarded management handlers (rib/register, fib/add-nexthop, ...), lookups and probes.
@@ -831,9 +835,16 @@ func main() {
 	minBound := bound
 	var samples []string
 	var per []sched.Stats
+	var checkErrs []string
+	nviol := 0
 	for i, r := range results {
 		if r.Err != "" {
-			report.Fatal("%s", r.Err)
+			// (an execution that is not a function of its schedule - e.g. an unlocked update racing with
+			// a map-ordered clean-up - cannot be explored; it ends the check with CHECK-ERROR below
+			// unless the other scenarios report violations, which stand on their own)
+			checkErrs = append(checkErrs, fmt.Sprintf("[%s %s] %s", items[i].Fib, all[items[i].Idx].Name, r.Err))
+			complete = false
+			continue
 		}
 		execs += r.Stats.Executions
 		kept += r.Kept
@@ -853,6 +864,7 @@ func main() {
 			if f.Clause == "C16.deadlock" {
 				deadlocked[fmt.Sprint(f.Fib, f.Idx)] = true
 			}
+			nviol++
 			rep.Add(report.Violation{Clause: f.Clause, Key: f.Key, Detail: fmt.Sprintf("[%s %s] %s ; schedule trace %v", f.Fib, f.Scenario, f.Detail, f.Trace),
 				Replay: map[string]any{"mode": "sched", "fib": f.Fib, "index": f.Idx, "scenario": f.Scenario, "schedule": f.Schedule, "thorough_scenarios": rep.Thorough()}})
 		}
@@ -860,7 +872,11 @@ func main() {
 			samples = append(samples, fmt.Sprintf("%s %s: %d schedules, %d distinct histories", items[i].Fib, all[items[i].Idx].Name, r.Stats.Executions, r.Stats.Outcomes))
 		}
 	}
+	if len(checkErrs) > 0 && nviol == 0 {
+		report.Fatal("%s", strings.Join(checkErrs, " ; "))
+	}
 	cov := report.Coverage{
+		"scenarios_abandoned_with_a_check_error": checkErrs,
 		"states": points, "transitions": points, "traces_validated_against_impl": execs,
 		"schedules": execs, "scenarios": len(items), "preemption_bound_completed_all_scenarios": minBound,
 		"preemption_bound_target": bound, "distinct_histories": outcomes, "determinism_double_runs": dbl,
